@@ -168,6 +168,36 @@ def c05_programs(rng, tier) -> List[Item]:
     items += gen_items(rng, cfg, sizes(tier, 250, 4000), hist_all_ops, ops=("evaluate",))
     cfg2 = Cfg(raising=True, catch_unsafe=True)
     items += gen_items(rng, cfg2, sizes(tier, 100, 1500), hist_all_ops, ops=("evaluate",))
+    items += equal_hash_items(rng, sizes(tier, 20, 150))
+    return items
+
+
+def equal_hash_items(rng, n) -> List[Item]:
+    """values that are `==` and hash alike but are different values (1 / True, 0 / False) reach one long-lived bind,
+    switch, case or dataset one after the other: a continuation (user code) tells them apart, a dispatch table
+    (a dict) does not — either way nothing may depend on which of them came first"""
+    items = []
+    seqs = [[1, True, 1, 0, False, True], [True, 1, False, 0], [0, False, 1, True, 2], [False, True, 0, 1]]
+    for _ in range(n):
+        P = Prog()
+        src = P.option("A") if rng.random() < 0.6 else P.apply(P.option("A"), P.fnvalue("ident"))
+        table = [(1, P.value("int-one")), (True, P.value("bool-true")), (0, P.option("Z", dflt=P.value("int-zero"))),
+                 (False, P.value("bool-false"))]
+        rng.shuffle(table)
+        table = table[: rng.randint(2, 4)]
+        b = P.bind(src, table, P.value("other") if rng.random() < 0.7 else None)
+        shape = rng.choice(["bind", "in_list", "in_dataset", "nested"])
+        if shape == "bind":
+            root = b
+        elif shape == "in_list":
+            root = P.collection("list", [b, P.switch(P.option("A", bare=True), [(1, P.value("sw-one")), (0, P.value("sw-zero"))], P.value("sw-d"))])
+        elif shape == "in_dataset":
+            root = P.dataset([("v", b)], cache=P.new_cache("nocache"))
+        else:
+            root = P.bind(b, [("int-one", P.value(11)), ("bool-true", P.value(12))], P.value(13))
+        for v in rng.choice(seqs):
+            P.evaluate(root, {"A": v})
+        items.append((P.to_json(), {}))
     return items
 
 
@@ -800,7 +830,7 @@ def c04_programs(rng, tier) -> List[Item]:
             if d == "const_falsy":
                 dflt = P.value(rng.choice([None, 0, False, [], {}]))
             elif d == "const":
-                dflt = P.value(rng.choice([7, [1], {"Z": 1}]))
+                dflt = P.value(rng.choice([7, [1], {"Z": 1}, {"Z": [1], "Y": {"W": 2}}, [[1], {"a": []}]]))
             elif d == "template":
                 dflt_text = rng.choice(["{B}", "d{A}", "plain", "", "\\{A\\}", "p\\{q\\}r", "\\{\\}{B}"])
                 dflt = P.template(dflt_text)
@@ -833,9 +863,13 @@ def c04_programs(rng, tier) -> List[Item]:
                 else:
                     _shape(o, key, rng)
                 o = sort_json(o)
-                P.evaluate(opt, o)
+                P.evaluate(opt, o, **({"mutate_result": True} if d != "dataset" else {}))
                 meta["c04"].append({"op": len(P.ops) - 1, "key": key, "dflt": d, "domain": domspec, "opt": opt,
                                     "dflt_text": dflt_text if d == "template" else None})
+                if d != "dataset":
+                    # what an Option yields is the caller's own: editing it in place changes nothing the Option yields later
+                    P.evaluate(opt, o)
+                    meta.setdefault("stable", []).append((len(P.ops) - 2, len(P.ops) - 1))
         # one long-lived Option whose domain is itself an option with a default: first without, then with ALLOWED
         allowed_default = [None, False, 0, 1, "", "x", "a", "b"]
         dom_opt = P.option("ALLOWED", dflt=P.value(allowed_default))
@@ -906,6 +940,11 @@ def ref_has_template(v) -> bool:
 
 def c04_oracle(prog, meta, impl, model):
     out = []
+    for i, j in meta.get("stable", []):
+        a, b = impl[i], impl[j]
+        if "r" in a and "r" in b and dumps(a["r"]) != dumps(b["r"]):
+            out.append(("after the caller edited a yielded value in place, the Option yields something else for the same options", j,
+                        {"options": prog["ops"][j]["o"], "first": a["r"], "then": b["r"]}))
     for c in meta.get("sets", []):
         a = impl[c["op"]] if c["op"] < len(impl) else None
         if a is None or "r" not in a:
@@ -1129,8 +1168,32 @@ C04 = CoreProp("C04", ("eval", "mut", "reads"), c04_programs, c04_full_oracle, n
 
 # ================================================================== C06
 
+def c06_namespace_items(rng, n) -> List[Item]:
+    """declaring a namespace (class statement + decorator, documentation included) runs no dataset body, also when a
+    member's default is a dataset that could be evaluated without any option; the default's body runs only when the
+    member's key is absent and the namespace is evaluated"""
+    items = []
+    for _ in range(n):
+        P = Prog()
+        d1 = P.dataset([("b", P.option("B", dflt=P.value(1)))] if rng.random() < 0.7 else [])
+        members = [("A", P.option("NS.A", dflt=d1, nsmember=1, style="option")),
+                   ("C", P.option("NS.C", dflt=P.value(0), nsmember=1, style="option"))]
+        if rng.random() < 0.5:
+            d2 = P.dataset([])
+            sub = P.namespace("NS.SUB", [("D", P.option("NS.SUB.D", dflt=d2, nsmember=1, style="option"))], via="decorator")
+            P.node(sub)["explicit"] = rng.random() < 0.5
+            P.node(sub)["nsmember"] = 1
+            members.append(("SUB", sub))
+        ns = P.namespace("NS", members, via="decorator")
+        for o in [{"NS": {"A": 5, "SUB": {"D": 6}}}, {}, {"NS": {"C": 2}}, {"NS": {"A": None}}]:
+            P.evaluate(ns, o)
+        items.append((P.to_json(), {}))
+    return items
+
+
 def c06_programs(rng, tier) -> List[Item]:
     items = corpus_items("C06")
+    items += c06_namespace_items(rng, sizes(tier, 15, 100))
     cfg = Cfg(raising=False, catch_unsafe=True)
     items += gen_items(rng, cfg, sizes(tier, 300, 4000), hist_all_ops, ops=("evaluate",))
     return items
@@ -2024,7 +2087,32 @@ def c16_programs(rng, tier) -> List[Item]:
     items += gen_items(rng, cfg, sizes(tier, 120, 1500), hist_switches)
     cfgx = Cfg(raising=False, all_options=False, templates=False, max_depth=99)
     g = gen_items(rng, cfgx, sizes(tier, 15, 150), hist_switches, n_dicts=2)
-    return items + g + derived_cache_items(rng, sizes(tier, 30, 300))
+    return items + g + derived_cache_items(rng, sizes(tier, 30, 300)) + log_level_items(rng, sizes(tier, 20, 120))
+
+
+def log_level_items(rng, n) -> List[Item]:
+    """log effects of every level on datasets: with logging switched off — by the option or by the context manager —
+    nothing at all is emitted, whatever the level; with logging on each runs once per body execution (oracle only:
+    `LogEffect` is not part of the model)"""
+    items = []
+    for _ in range(n):
+        P = Prog()
+        levels = rng.sample([10, 20, 30, 40, 50], rng.randint(1, 3))
+        effs = [P._node("logeffect", level=lv, msg=f"m{lv}") for lv in levels]
+        d = P.dataset([("a", P.option("A"))], effects=effs, cache=P.new_cache(rng.choice(["memory", "nocache"])))
+        root = d if rng.random() < 0.5 else P.dataset([("x", d)])
+        recs = []
+        for i, mode in enumerate(rng.sample(["on", "option", "context", "option", "context"], 4)):
+            o: Dict[str, Any] = {"A": i}
+            kw: Dict[str, Any] = {}
+            if mode == "option":
+                o["LABREA"] = {"LOGGING": {"DISABLED": True}}
+            elif mode == "context":
+                kw["log_off"] = True
+            P.evaluate(root, o, **kw)
+            recs.append({"op": len(P.ops) - 1, "mode": mode, "levels": sorted(lv for lv in levels if lv >= 20)})
+        items.append((P.to_json(), {"sw": [], "bodies": {}, "loglevels": recs, "no_model": True}))
+    return items
 
 
 def derived_cache_items(rng, n) -> List[Item]:
@@ -2052,6 +2140,16 @@ def derived_cache_items(rng, n) -> List[Item]:
 
 def c16_oracle(prog, meta, impl, model):
     out = []
+    for rec in meta.get("loglevels", []):
+        a = impl[rec["op"]] if rec["op"] < len(impl) else None
+        if not is_ok(a):
+            continue
+        eff_records = [r for r in a.get("log", []) if len(r) > 2]
+        if rec["mode"] != "on" and a.get("log"):
+            out.append(("with logging disabled a record was emitted", rec["op"], {"how": rec["mode"], "records": a["log"][:4]}))
+        if rec["mode"] == "on" and sorted(r[2] for r in eff_records) != rec["levels"]:
+            out.append(("a dataset's log effects did not each emit one record for the body execution", rec["op"],
+                        {"expected_levels": rec["levels"], "records": eff_records}))
     for rec in meta.get("nocache_runs", []):
         a = impl[rec["op"]] if rec["op"] < len(impl) else None
         if is_ok(a):
@@ -2090,6 +2188,8 @@ def c16_oracle(prog, meta, impl, model):
             if len(b.get("log", [])) != nreq:
                 out.append(("log requests and emitted INFO records differ", rec["op"],
                             {"switches": desc, "requests": nreq, "emitted": len(b.get("log", []))}))
+    if meta.get("loglevels") is not None:
+        return out          # (log effects issue log requests of their own: the count below is about datasets' INFO lines)
     # exactly one INFO log request per dataset evaluation not served from its cache
     for i, o in enumerate(impl):
         if not is_ok(o) or "cache" not in o:
